@@ -219,6 +219,8 @@ type BlockUtils struct {
 	Me      primitives.MemberId
 	View    func() uint64 // current view of the node, for deterministic proposal tags
 	Invalid map[string]bool
+	// AcceptNil: a sloppy consumer whose validator does not look at the block at all when it is missing
+	AcceptNil bool
 	Vals    []ValCall
 	Reqs    []ReqCall
 	// Gates for E2 (blocking SPI): called with the context, may wait on it.
@@ -243,6 +245,9 @@ func (b *BlockUtils) ValidateBlockProposal(ctx context.Context, h primitives.Blo
 		b.ValGate(ctx, h)
 	}
 	ok := block != nil && HashOf(block) != nil && bytes.Equal(HashOf(block), bh) && block.Height() == h && !b.Invalid[TagOf(block)]
+	if block == nil && b.AcceptNil {
+		ok = true
+	}
 	b.Vals = append(b.Vals, ValCall{uint64(h), TagOf(block), ok, ctx.Err() != nil})
 	if !ok {
 		return errors.New("consumer rejects proposal")
@@ -312,6 +317,8 @@ type Store struct {
 	Desc bool
 	Rec  []string // successful stores since last ClearBlockHeightLogs
 	All  []string // every Store* call: "<ok>/<descriptor>"
+	// OnStore, if set, sees every message handed to a Store* call (kind, instance id, height, stored?)
+	OnStore func(kind string, inst uint64, height uint64, ok bool)
 }
 
 func NewStore(desc bool) *Store {
@@ -338,21 +345,33 @@ func (s *Store) note(ok bool, d string) {
 
 func (s *Store) StorePreprepare(m *interfaces.PreprepareMessage) bool {
 	ok := s.InMemoryStorage.StorePreprepare(m)
+	if s.OnStore != nil {
+		s.OnStore("PP", uint64(m.InstanceId()), uint64(m.BlockHeight()), ok)
+	}
 	s.note(ok, fmt.Sprintf("PP/%d/%d/%s/%s/%s", m.BlockHeight(), m.View(), hx(m.Content().SignedHeader().BlockHash()), string(m.SenderMemberId()), TagOf(m.Block())))
 	return ok
 }
 func (s *Store) StorePrepare(m *interfaces.PrepareMessage) bool {
 	ok := s.InMemoryStorage.StorePrepare(m)
+	if s.OnStore != nil {
+		s.OnStore("P", uint64(m.InstanceId()), uint64(m.BlockHeight()), ok)
+	}
 	s.note(ok, fmt.Sprintf("P/%d/%d/%s/%s", m.BlockHeight(), m.View(), hx(m.Content().SignedHeader().BlockHash()), string(m.SenderMemberId())))
 	return ok
 }
 func (s *Store) StoreCommit(m *interfaces.CommitMessage) bool {
 	ok := s.InMemoryStorage.StoreCommit(m)
+	if s.OnStore != nil {
+		s.OnStore("C", uint64(m.InstanceId()), uint64(m.BlockHeight()), ok)
+	}
 	s.note(ok, fmt.Sprintf("C/%d/%d/%s/%s", m.BlockHeight(), m.View(), hx(m.Content().SignedHeader().BlockHash()), string(m.SenderMemberId())))
 	return ok
 }
 func (s *Store) StoreViewChange(m *interfaces.ViewChangeMessage) bool {
 	ok := s.InMemoryStorage.StoreViewChange(m)
+	if s.OnStore != nil {
+		s.OnStore("VC", uint64(m.InstanceId()), uint64(m.BlockHeight()), ok)
+	}
 	d := sha256.Sum256(m.Raw())
 	s.note(ok, fmt.Sprintf("VC/%d/%d/%s/%x/%s", m.BlockHeight(), m.View(), string(m.SenderMemberId()), d[:4], TagOf(m.Block())))
 	return ok
@@ -393,4 +412,14 @@ func (s *Store) SortedRec() []string {
 	r := append([]string{}, s.Rec...)
 	sort.Strings(r)
 	return r
+}
+
+// ChainSeedSig(h) = the aggregated random-seed signature of the proof of height h on a chain whose every
+// height was committed through this key manager (it depends only on the height and the previous seed).
+func ChainSeedSig(h uint64, calc func(sig []byte) uint64, toBytes func(uint64) []byte) []byte {
+	var prev []byte
+	for k := uint64(1); k <= h; k++ {
+		prev = MasterSeedSig(primitives.BlockHeight(k), SeedDigest(toBytes(calc(prev))))
+	}
+	return prev
 }
